@@ -31,6 +31,10 @@ def schedule_flags(sid: int) -> dict:
         dup=r.choice([None, None, "same", "renamed"]),
         subsample=(sid % 8 == 3),
         kmax_in=3 if sid % 8 == 5 else 2,
+        # delivered as job files in a folder and learnt through the real CLI
+        # (pv2puml -fp): the directory listing order becomes part of the
+        # schedule
+        via_cli=(sid % 8 == 6),
     )
 
 
@@ -45,6 +49,8 @@ def learn_unit(wid: str, sid: int, want=("c01", "c02", "c05")) -> dict:
         "clock_origin_s": 1_600_000_000 + core.grid("clock", sid) % 200_000_000,
         "clock_tick_us": [1, 1000, 1_000_000][core.grid("tick", sid) % 3],
         "kmax_in": fl["kmax_in"],
+        "via_cli": fl["via_cli"],
+        "fs_seed": core.grid("fs", wid, sid),
         "present": {
             "order": None,
             "derive": {
